@@ -6,6 +6,10 @@ D=/tmp/mut/${P}_demo
 [ -f "$D/patch.diff" ] || git -C /tmp/mut/$P diff > "$D/patch.diff"
 mkdir -p /verif/seeded/$NAME
 cp "$D/patch.diff" "$D/demo.py" /verif/seeded/$NAME/
+for f in "$D"/*.py; do cp "$f" /verif/seeded/$NAME/; done
+[ -d "$D/h5py" ] && cp -r "$D/h5py" /verif/seeded/$NAME/
+for extra in fake_modules fake fakes stubs bin; do [ -d "$D/$extra" ] && cp -r "$D/$extra" /verif/seeded/$NAME/; done
+find /verif/seeded/$NAME -name __pycache__ -type d -exec rm -rf {} + 2>/dev/null
 python3 - "$NAME" "$P" "$NEEDS" "$WHAT" <<'PY'
 import json,sys
 name,prop,needs,what=sys.argv[1:5]
